@@ -128,7 +128,10 @@ func concatMaps(ms reflect.Value) (reflect.Value, error) {
 			}
 
 			val := m.MapIndex(key)
-			vals = reflect.Append(vals, val)
+			if val.Kind() != reflect.Interface || !val.IsNil() {
+				// a nil value carries nothing to concat; the key is still remembered
+				vals = reflect.Append(vals, val)
+			}
 			rms.SetMapIndex(key, vals)
 		}
 	}
@@ -137,6 +140,11 @@ func concatMaps(ms reflect.Value) (reflect.Value, error) {
 		vals := rms.MapIndex(key)
 
 		anyVals := vals.Interface().([]any)
+		if len(anyVals) == 0 {
+			// every chunk had a nil value under this key
+			ret.SetMapIndex(key, reflect.Zero(typ.Elem()))
+			continue
+		}
 		v, err := toSliceValue(anyVals)
 		if err != nil {
 			return reflect.Value{}, err
